@@ -12,14 +12,25 @@ import GardenVerif.Lemmas.Fixes
   evaluated per input by the driver (`fixes_check`), which also compares the model's output with the real one.
   `apply_fixes_skip_disjoint` is the same statement for the repaired `apply_fixes` (a fix that overlaps an already
   applied one is skipped; no panic outcome); the harness picks the model variant that matches the source it builds.
-* per-lint schema soundness on `RefSem` (what each fix CLAIMS to do), exact in fuel:
-  `unused_literal_stmt_sound` (a literal statement that is not the last of its block can be dropped),
-  `unnecessary_let_sound` (`let x = e; x` at the end of a block has the value and output of `e`),
-  `repeated_bool_sound` (`(a op b) op a = a op b` on Bool values for `&&` / `||`, garden's operators being strict).
-  NOT PROVED (full statement): the lift of these local equalities through arbitrary program contexts
-  (`fix_schema_sound : IsFixSchema p p' → ∀ r, Terminates p r ↔ Terminates p' r`); it needs fuel monotonicity of
-  `RefSem` plus a congruence argument per node kind. Per input the direct oracle runs the real evaluator on the
-  program before and after `--fix`.
+* per-lint schema soundness on `RefSem` (what each fix CLAIMS to do).
+  LOCAL lemmas, exact in fuel: `unused_literal_stmt_sound`, `unused_string_stmt_sound` (a literal statement that
+  is not the last of its block can be dropped), `unnecessary_let_sound` (`let x = e; x` at the end of a block has
+  the value and output of `e`), `repeated_bool_sound` (`(a op b) op a = a op b` on Bool values, `&&` / `||` being
+  strict in garden).
+  WHOLE-PROGRAM theorems (closure-free restriction `cl = false`, hence `_partial`; all programs, all fuel):
+  `unused_literal_fix_sound_partial` — deleting any set of non-last int / string literal statements anywhere in
+  the program preserves the run exactly (result, store, output), with the fuel bounds stated there;
+  `repeated_bool_fix_sound_partial` — replacing `x op d` by `x` (`x` a call-free pure `op`-chain, `d` a copy of one
+  of its operands) anywhere in the program preserves the run unless the original ends with a type error; lifted
+  from the local lemma by the congruence `C21.eval_congr_partial`. The relations (`Fixes.IsUnusedLiteralFix`,
+  `Fixes.IsRepeatedBoolFix`) are decided per input by the driver ops `litfix_check` / `rbfix_check` on the two
+  trees of the real parser (`unusedLiteralCheck_sound`, `repeatedBoolCheck_sound`).
+  NOT PROVED: (1) the whole-program lift of `unnecessary_let_sound`: the fixed program allocates one store cell
+  less, so every later location differs; the runs are equal only up to an injection of store locations, which
+  needs a simulation relation on stores / environments instead of the equality the congruence provides;
+  (2) the same theorems with closures (`cl = true`): need the value-relation technique of Props/C19;
+  (3) the unused-variable `_` prefix and `len() == 0` schemas (method calls are outside the fragment).
+  Per input the direct oracle runs the real evaluator on the program before and after `--fix`.
 -/
 set_option linter.unusedVariables false
 set_option linter.unusedSimpArgs false
